@@ -319,6 +319,83 @@ func runC19HTTP(c c19HTTPCase) *Violation {
 	return nil
 }
 
+// ---- histories on one handler: the verifier's verdict may change between requests ---------
+
+type c19SeqStep struct {
+	Token     string   `json:"token"`
+	ViaQuery  bool     `json:"via_query,omitempty"`
+	VerifyErr bool     `json:"verify_err,omitempty"`
+	Allow     []string `json:"allow"`
+}
+
+type c19Seq struct {
+	Steps []c19SeqStep `json:"steps"`
+}
+
+// runC19Seq sends the steps, one after the other, through ONE auth.Handler whose verifier answers what the
+// current step says (tokens get revoked, re-scoped, re-issued): every request must be judged by the verdict the
+// verifier gives for it, not by an earlier one.
+func runC19Seq(c c19Seq) *Violation {
+	var cur c19SeqStep
+	var verified []string
+	var nextRan int
+	var nextPerms []string
+	sentinel := auth.Permission("__default_sentinel__")
+	h := &auth.Handler{
+		Verify: func(ctx context.Context, token string) ([]auth.Permission, error) {
+			verified = append(verified, token)
+			if cur.VerifyErr {
+				return nil, errors.New("rejected")
+			}
+			return toPerms(cur.Allow), nil
+		},
+		Next: func(w http.ResponseWriter, r *http.Request) {
+			nextRan++
+			for _, p := range c19Universe {
+				if auth.HasPerm(r.Context(), []auth.Permission{sentinel}, p) {
+					nextPerms = append(nextPerms, string(p))
+				}
+			}
+			w.WriteHeader(204)
+		},
+	}
+	for i, st := range c.Steps {
+		cur, verified, nextRan, nextPerms = st, nil, 0, nil
+		target := "http://example.invalid/rpc/v0"
+		if st.ViaQuery {
+			target += "?token=" + url.QueryEscape(st.Token)
+		}
+		req := httptest.NewRequest("POST", target, strings.NewReader("{}"))
+		if !st.ViaQuery {
+			req.Header.Set("Authorization", "Bearer "+st.Token)
+		}
+		rw := httptest.NewRecorder()
+		h.ServeHTTP(rw, req)
+		if len(verified) != 1 || verified[0] != st.Token {
+			return violf("seq-verifier-not-consulted", "step %d of %d (token %q): the verifier saw %q", i+1, len(c.Steps), st.Token, verified)
+		}
+		if st.VerifyErr {
+			if rw.Code != 401 || nextRan != 0 {
+				return violf("seq-rejected-token-passed", "step %d of %d: token %q is rejected by the verifier now, yet status %d and next ran %d times", i+1, len(c.Steps), st.Token, rw.Code, nextRan)
+			}
+			continue
+		}
+		if rw.Code != 204 || nextRan != 1 {
+			return violf("seq-accepted-token-refused", "step %d of %d: token %q is accepted by the verifier now, yet status %d and next ran %d times", i+1, len(c.Steps), st.Token, rw.Code, nextRan)
+		}
+		want := []string{}
+		for _, p := range c19Universe {
+			if containsStr(st.Allow, string(p)) {
+				want = append(want, string(p))
+			}
+		}
+		if fmt.Sprint(want) != fmt.Sprint(append([]string{}, nextPerms...)) {
+			return violf("seq-stale-permissions", "step %d of %d: the verifier returned %v for token %q, but %v was attached", i+1, len(c.Steps), st.Allow, st.Token, nextPerms)
+		}
+	}
+	return nil
+}
+
 // ---- end to end: auth handler -> RPC server -> permissioned proxy ---------
 
 // c19API exposes the permissioned proxy's function fields as methods (the way
@@ -515,9 +592,9 @@ func runC19Concurrent(c c19Concurrent) *Violation {
 }
 
 func TestC19(t *testing.T) {
-	rec := NewRec("C19", "proxy cases: exhaustive (caller set x default set x attached x required x shape) over a 3-permission universe plus generated lists with duplicates/foreign/empty permissions; HTTP cases: header form x query form x verifier outcome. Non-trivial = the effective set is non-empty and differs from the set that was NOT chosen (attached vs defaults disagree on the verdict), or an HTTP case carrying a token; distinct by descriptor hash")
+	rec := NewRec("C19", "proxy cases: exhaustive (caller set x default set x attached x required x shape) over a 3-permission universe plus generated lists with duplicates/foreign/empty permissions; HTTP cases: header form x query form x verifier outcome; histories of 2-8 requests on one handler whose verifier changes its verdict for a token between requests (revoked, re-scoped, re-issued). Non-trivial = the effective set is non-empty and differs from the set that was NOT chosen (attached vs defaults disagree on the verdict), or an HTTP case carrying a token; distinct by descriptor hash")
 	defer rec.Finish(t)
-	rec.RequireClass("concurrent_requests", "proxy_denied", "proxy_allowed", "attached_empty", "http_malformed", "http_rejected", "http_query_token", "http_both")
+	rec.RequireClass("sequence_verdict_changes", "concurrent_requests", "proxy_denied", "proxy_allowed", "attached_empty", "http_malformed", "http_rejected", "http_query_token", "http_both")
 
 	proxyClasses := func(c c19Case) (bool, []string) {
 		req := string(c19Universe[c.Required])
@@ -601,6 +678,16 @@ func TestC19(t *testing.T) {
 		}
 	})
 
+	t.Run("sequences", func(t *testing.T) {
+		for _, steps := range [][]c19SeqStep{
+			{{Token: "t1", Allow: []string{"read", "write", "admin"}}, {Token: "t1", Allow: []string{"read"}}, {Token: "t1", VerifyErr: true}, {Token: "t1", Allow: []string{}}, {Token: "t1", Allow: []string{"admin"}}},
+			{{Token: "t1", VerifyErr: true}, {Token: "t1", Allow: []string{"write"}}, {Token: "t2", Allow: []string{"read"}}, {Token: "t1", ViaQuery: true, Allow: []string{"read"}}},
+		} {
+			c := c19Seq{Steps: steps}
+			rec.Run(t, c, true, []string{"http", "sequence_verdict_changes"}, func() *Violation { return runC19Seq(c) })
+		}
+	})
+
 	t.Run("e2e-grid", func(t *testing.T) {
 		s := func(x string) *string { return &x }
 		toks := []*string{nil, s(`["read"]`), s(`["write","admin"]`), s(`[]`), s(`garbage`)}
@@ -617,7 +704,27 @@ func TestC19(t *testing.T) {
 	})
 
 	rec.Rapid(t, "rapid", func(rt *rapid.T) {
-		switch rapid.IntRange(0, 9).Draw(rt, "kind") {
+		switch rapid.IntRange(0, 11).Draw(rt, "kind") {
+		case 10, 11:
+			n := rapid.IntRange(2, 8).Draw(rt, "n")
+			c := c19Seq{}
+			changes := false
+			last := map[string]string{}
+			for i := 0; i < n; i++ {
+				st := c19SeqStep{Token: rapid.SampledFrom([]string{"t1", "t2", "eyJhbGciOi.x.y"}).Draw(rt, "token"), ViaQuery: rapid.IntRange(0, 3).Draw(rt, "q") == 0,
+					VerifyErr: rapid.IntRange(0, 3).Draw(rt, "err") == 0, Allow: maskSet(rapid.IntRange(0, 7).Draw(rt, "allow"))}
+				verdict := fmt.Sprint(st.VerifyErr, st.Allow)
+				if prev, ok := last[st.Token]; ok && prev != verdict {
+					changes = true
+				}
+				last[st.Token] = verdict
+				c.Steps = append(c.Steps, st)
+			}
+			cl := []string{"http", "sequence"}
+			if changes {
+				cl = append(cl, "sequence_verdict_changes")
+			}
+			rec.Run(rt, c, changes, cl, func() *Violation { return runC19Seq(c) })
 		case 0, 1, 2, 3, 4, 5:
 			c := c19Case{
 				Caller: genPermList(rt, "caller"), Attached: rapid.Bool().Draw(rt, "attached"), NilSet: rapid.Bool().Draw(rt, "nilset"),
@@ -677,6 +784,11 @@ func TestC19Replay(t *testing.T) {
 	Replay(t, "C19", 1, func(raw json.RawMessage) *Violation {
 		var probe map[string]json.RawMessage
 		_ = json.Unmarshal(raw, &probe)
+		if _, ok := probe["steps"]; ok {
+			var c c19Seq
+			_ = json.Unmarshal(raw, &c)
+			return runC19Seq(c)
+		}
 		if _, ok := probe["rounds"]; ok {
 			var c c19Concurrent
 			_ = json.Unmarshal(raw, &c)
